@@ -194,6 +194,7 @@ inductive Sh3 where
   | cuboid (he : V3 Rat) (br : Rat) (surf : Bool := false)
   | halfspace (n : V3 Rat)
   | capsule (hh r : Rat)
+  | triangle (a b c : V3 Rat)
 
 def seqShapes3 (s : Seq3) : Sh3 × Sh3 :=
   let a := q3 s.a; let b := q3 s.b; let e := q s.e
@@ -220,6 +221,25 @@ def capsuleAxisDistSq (hh : Rat) (p : V3 Rat) : Rat :=
   let c : V3 Rat := ⟨0, clampR p.y (-hh) hh, 0⟩
   (p.sub c).normSq
 
+/-- squared distance from `p` to the segment `a b` -/
+def segDistSq3 (a b p : V3 Rat) : Rat :=
+  let ab := b.sub a
+  let l2 := ab.normSq
+  let t := if l2 = 0 then 0 else clampR ((p.sub a).dot ab / l2) 0 1
+  (p.sub (a.add (ab.smul t))).normSq
+/-- squared distance from `p` to the triangle `a b c`: the foot of the perpendicular if it falls inside
+(barycentric coordinates from the exact 2×2 normal equations), else the nearest edge -/
+def triDistSq3 (a b c p : V3 Rat) : Rat :=
+  let e1 := b.sub a; let e2 := c.sub a; let w := p.sub a
+  let d11 := e1.dot e1; let d12 := e1.dot e2; let d22 := e2.dot e2
+  let w1 := w.dot e1; let w2 := w.dot e2
+  let det := d11 * d22 - d12 * d12
+  let edges := min (min (segDistSq3 a b p) (segDistSq3 b c p)) (segDistSq3 c a p)
+  if det = 0 then edges else
+    let u := (d22 * w1 - d12 * w2) / det
+    let v := (d11 * w2 - d12 * w1) / det
+    if 0 ≤ u && 0 ≤ v && u + v ≤ 1 then (w.sub ((e1.smul u).add (e2.smul v))).normSq else edges
+
 /-- `p` is a witness *on* the shape (boundary, within `tol`): the property's "contact points belong to
 their shapes".  Returns a reason on failure. -/
 def onShape3 (sh : Sh3) (p : V3 Rat) (tol : Rat) : Option String :=
@@ -237,6 +257,9 @@ def onShape3 (sh : Sh3) (p : V3 Rat) (tol : Rat) : Option String :=
   | .capsule hh r =>
     let d2 := capsuleAxisDistSq hh p
     if leTol d2 (r * r) tol then none else some s!"outside-capsule d²={d2}"
+  | .triangle a b c =>
+    let d2 := triDistSq3 a b c p
+    if leTol d2 0 tol then none else some s!"off-triangle d²={d2}"
 
 def vertsCuboid (he : V3 Rat) : List (V3 Rat) :=
   [he.x, -he.x].flatMap fun x => [he.y, -he.y].flatMap fun y => [he.z, -he.z].map fun z => ⟨x, y, z⟩
@@ -294,7 +317,12 @@ def manifoldOracleQ (sh : Sh3 × Sh3) (M : Iso3 Rat) (pred : Float) (m : Manifol
   let oneshot : Option String :=
     match os, deep with
     | some (true, od), some d =>
-      if close d (q od) ((1 / 1000000 : Rat) + drift) then none else some s!"deepest={d} one-shot={q od}"
+      if close d (q od) ((1 / 1000000 : Rat) + drift) then none
+      -- separated shapes, SAT/clipping generator: the clipped feature points can miss the closest vertex, so the
+      -- smallest predictive gap is over-estimated (its own verdict: a property failure of a different kind than a
+      -- wrong penetration depth)
+      else if !exactKnown && 0 < q od && q od < d then some s!"predictive-gap-overestimated deepest={d} one-shot={q od}"
+      else some s!"deepest={d} one-shot={q od}"
     | some (true, od), none =>
       let lim := if exactKnown then P else min P 0
       if q od < lim - (1 / 1000000) * (1 + rabs (q od) + rabs P) then some s!"no-contact-but-one-shot={q od}" else none
@@ -328,17 +356,22 @@ def seqOracle3 (s : Seq3) (warm : Bool) (ms : List (Manifold3 Float)) : String :
   if ms.length != s.poses.length then "fail wrong-number-of-calls" else
   if (!warm && s.kind > 8) || (warm && (s.kind < 9 || s.kind > 10)) then "skip unknown-kind" else
   let sh := seqShapes3 s
-  let rec go : Nat → List (Iso3 Float) → List (Manifold3 Float) → Option String
-    | _, [], _ => none
-    | _, _, [] => none
+  -- `soft`: the first depth-vs-one-shot discrepancy of a SAT/clipping generator (a known limitation with its own
+  -- verdict); the remaining calls are still judged and any other failure takes precedence
+  let rec go (soft : Option String) : Nat → List (Iso3 Float) → List (Manifold3 Float) → Option String
+    | _, [], _ => soft
+    | _, _, [] => soft
     | i, p :: ps, m :: ms =>
       let drift : Rat := if warm then ((i : Rat) + 1) / 1000 else 0
       -- capsule/capsule: the one-shot `contact` itself is unreliable on collinear axes (C02), not used as a reference
       let os := if s.kind == 10 then none else s.oneshot[i]?
       match manifoldOracle3 sh p s.pred m os drift (!warm) with
-      | some r => some s!"call={i} {r}"
-      | none => go (i + 1) ps ms
-  match go 0 s.poses ms with
+      | some r =>
+        if warm && (r.startsWith "deepest=" || r.startsWith "predictive-gap-overestimated") then
+          go (soft <|> some s!"call={i} {r}") (i + 1) ps ms
+        else some s!"call={i} {r}"
+      | none => go soft (i + 1) ps ms
+  match go none 0 s.poses ms with
   | some r => s!"fail {r}"
   | none => "pass"
 
@@ -564,6 +597,7 @@ inductive Sh2 where
   | ball (r : Rat)
   | cuboid (he : V2 Rat) (surf : Bool)
   | halfspace (n : V2 Rat)
+  | triangle (a b c : V2 Rat)
 
 def seqShapes2 (s : Seq2) : Sh2 × Sh2 :=
   let a := q2 s.a; let b := q2 s.b
@@ -578,6 +612,16 @@ def cuboidDistSq2 (he p : V2 Rat) : Rat :=
   let c : V2 Rat := ⟨clampR p.x (-he.x) he.x, clampR p.y (-he.y) he.y⟩
   (p.sub c).normSq
 
+def segDistSq2 (a b p : V2 Rat) : Rat :=
+  let ab := b.sub a
+  let l2 := ab.normSq
+  let t := if l2 = 0 then 0 else clampR ((p.sub a).dot ab / l2) 0 1
+  (p.sub (a.add (ab.smul t))).normSq
+def triDistSq2 (a b c p : V2 Rat) : Rat :=
+  let s1 := (b.sub a).perp (p.sub a); let s2 := (c.sub b).perp (p.sub b); let s3 := (a.sub c).perp (p.sub c)
+  if (0 ≤ s1 && 0 ≤ s2 && 0 ≤ s3) || (s1 ≤ 0 && s2 ≤ 0 && s3 ≤ 0) then 0
+  else min (min (segDistSq2 a b p) (segDistSq2 b c p)) (segDistSq2 c a p)
+
 def onShape2 (sh : Sh2) (p : V2 Rat) (tol : Rat) : Option String :=
   match sh with
   | .ball r => if close p.normSq (r * r) tol then none else some s!"not-on-ball |p|²={p.normSq} r²={r*r}"
@@ -589,6 +633,9 @@ def onShape2 (sh : Sh2) (p : V2 Rat) (tol : Rat) : Option String :=
   | .halfspace n =>
     let d := n.dot p
     if close d 0 tol then none else some s!"not-on-plane n·p={d}"
+  | .triangle a b c =>
+    let d2 := triDistSq2 a b c p
+    if leTol d2 0 tol then none else some s!"off-triangle d²={d2}"
 
 def vertsCuboid2 (he : V2 Rat) : List (V2 Rat) := [⟨he.x, he.y⟩, ⟨-he.x, he.y⟩, ⟨he.x, -he.y⟩, ⟨-he.x, -he.y⟩]
 
@@ -609,25 +656,32 @@ def exactDist2 (sh : Sh2 × Sh2) (M : Iso2 Rat) : Rat :=
   | _ => 0
 
 def manifoldOracle2 (sh : Sh2 × Sh2) (pos12 : Iso2 Float) (pred : Float) (m : Manifold2 Float)
-    (os : Option (Bool × Float)) : Option String :=
+    (os : Option (Bool × Float)) (drift : Rat := 0) (exactKnown : Bool := true) : Option String :=
   if !(finm2 m) then some "nonfinite-output" else
   let M := qiso2 pos12
   let P := q pred
   let n1 := q2 m.n1; let n2 := q2 m.n2
   let pts := m.points.map qc2
   let tol : Rat := tolDefault
+  let wtol : Rat := tol + drift * drift
   let D := exactDist2 sh M
   let deep : Option Rat := pts.foldl (fun acc c => match acc with | none => some c.dist | some d => some (min d c.dist)) none
   let presence : Option String :=
+    if !exactKnown then none else
     match deep with
     | none => if D < P - (1 / 1000000) * (1 + rabs D + rabs P) then some s!"no-contact-but-exact-dist={D}<prediction" else none
     | some d => if !(close d D (1 / 1000000 : Rat)) then some s!"deepest={d} exact={D}" else none
   let oneshot : Option String :=
     match os, deep with
     | some (true, od), some d =>
-      if close d (q od) (1 / 1000000 : Rat) then none else some s!"deepest={d} one-shot={q od}"
+      if close d (q od) ((1 / 1000000 : Rat) + drift) then none
+      -- separated shapes, SAT/clipping generator: the clipped feature points can miss the closest vertex, so the
+      -- smallest predictive gap is over-estimated (its own verdict: a property failure of a different kind than a
+      -- wrong penetration depth)
+      else if !exactKnown && 0 < q od && q od < d then some s!"predictive-gap-overestimated deepest={d} one-shot={q od}"
+      else some s!"deepest={d} one-shot={q od}"
     | some (true, od), none =>
-      if q od < P - (1 / 1000000) * (1 + rabs (q od) + rabs P) then some s!"no-contact-but-one-shot={q od}" else none
+      if q od < (if exactKnown then P else min P 0) - (1 / 1000000) * (1 + rabs (q od) + rabs P) then some s!"no-contact-but-one-shot={q od}" else none
     | some (false, _), some d =>
       if d < P - (1 / 1000000) * (1 + rabs d + rabs P) then some s!"contact-dist={d}-but-one-shot-none" else none
     | _, _ => none
@@ -638,11 +692,11 @@ def manifoldOracle2 (sh : Sh2 × Sh2) (pos12 : Iso2 Float) (pred : Float) (m : M
   let bad := pts.filterMap fun c =>
     let d := ((M.act c.p2).sub c.p1).dot n1
     if !(close c.dist d tol) then some s!"dist-identity dist={c.dist} expected={d}"
-    else match onShape2 sh.1 c.p1 tol with
+    else match onShape2 sh.1 c.p1 wtol with
       | some r => some s!"p1-{r}"
-      | none => match onShape2 sh.2 c.p2 tol with
+      | none => match onShape2 sh.2 c.p2 wtol with
         | some r => some s!"p2-{r}"
-        | none => if leTol c.dist P tol then none else some s!"dist={c.dist}>prediction"
+        | none => if !exactKnown || leTol c.dist P tol then none else some s!"dist={c.dist}>prediction"
   match bad with
   | b :: _ => some b
   | [] => presence <|> oneshot
@@ -662,6 +716,78 @@ def seqOracle2 (s : Seq2) (ms : List (Manifold2 Float)) : String :=
   | some r => s!"fail {r}"
   | none => "pass"
 
+/-! ### tiny shapes tilting on a unit-size cuboid (the warm-start angle clause on real pose sequences) -/
+structure SeqT3 where
+  kind : Nat
+  hb : V3 Float
+  tiny : List Float
+  pred : Float
+  poses : List (Iso3 Float)
+  oneshot : List (Bool × Float)
+def pseqt3 : P SeqT3 := do
+  let k ← pnat; let hb ← pv3; let t ← pN pf 9; let pr ← pf
+  let poses ← plist piso3
+  let o ← (pN (do let f ← pbool; let d ← pfo; pure (f, d)) poses.length) <|> pure []
+  pure ⟨k, hb, t, pr, poses, o⟩
+structure SeqT2 where
+  kind : Nat
+  hb : V2 Float
+  tiny : List Float
+  pred : Float
+  poses : List (Iso2 Float)
+  oneshot : List (Bool × Float)
+def pseqt2 : P SeqT2 := do
+  let k ← pnat; let hb ← pv2; let t ← pN pf 6; let pr ← pf
+  let poses ← plist piso2
+  let o ← (pN (do let f ← pbool; let d ← pfo; pure (f, d)) poses.length) <|> pure []
+  pure ⟨k, hb, t, pr, poses, o⟩
+
+def seqtShapes3 (s : SeqT3) : Sh3 × Sh3 :=
+  let g (i : Nat) : Rat := q (s.tiny.getD i 0.0)
+  let big : Sh3 := .cuboid (q3 s.hb) 0
+  let tiny : Sh3 := if s.kind < 2 then .cuboid ⟨g 0, g 1, g 2⟩ 0 else .triangle ⟨g 0, g 1, g 2⟩ ⟨g 3, g 4, g 5⟩ ⟨g 6, g 7, g 8⟩
+  if s.kind % 2 == 0 then (big, tiny) else (tiny, big)
+def seqtShapes2 (s : SeqT2) : Sh2 × Sh2 :=
+  let g (i : Nat) : Rat := q (s.tiny.getD i 0.0)
+  let big : Sh2 := .cuboid (q2 s.hb) false
+  let tiny : Sh2 := if s.kind < 2 then .cuboid ⟨g 0, g 1⟩ false else .triangle ⟨g 0, g 1⟩ ⟨g 2, g 3⟩ ⟨g 4, g 5⟩
+  if s.kind % 2 == 0 then (big, tiny) else (tiny, big)
+
+/-- per-call property oracle on the real manifolds; witnesses may drift by `1e-3` per consecutive fast-path call;
+the one-shot `contact` is a reference only for cuboid/cuboid (SAT), not for the GJK/EPA route of triangles -/
+def seqtOracle3 (s : SeqT3) (ms : List (Manifold3 Float)) : String :=
+  if ms.length != s.poses.length then "fail wrong-number-of-calls" else
+  if s.kind > 3 then "skip unknown-kind" else
+  let sh := seqtShapes3 s
+  let rec go : Nat → List (Iso3 Float) → List (Manifold3 Float) → Option String
+    | _, [], _ => none
+    | _, _, [] => none
+    | i, p :: ps, m :: ms =>
+      let drift : Rat := ((i : Rat) + 1) / 1000
+      let os := if s.kind < 2 then s.oneshot[i]? else none
+      match manifoldOracle3 sh p s.pred m os drift false with
+      | some r => some s!"call={i} {r}"
+      | none => go (i + 1) ps ms
+  match go 0 s.poses ms with
+  | some r => s!"fail {r}"
+  | none => "pass"
+def seqtOracle2 (s : SeqT2) (ms : List (Manifold2 Float)) : String :=
+  if ms.length != s.poses.length then "fail wrong-number-of-calls" else
+  if s.kind > 3 then "skip unknown-kind" else
+  let sh := seqtShapes2 s
+  let rec go : Nat → List (Iso2 Float) → List (Manifold2 Float) → Option String
+    | _, [], _ => none
+    | _, _, [] => none
+    | i, p :: ps, m :: ms =>
+      let drift : Rat := ((i : Rat) + 1) / 1000
+      let os := if s.kind < 2 then s.oneshot[i]? else none
+      match manifoldOracle2 sh p s.pred m os drift false with
+      | some r => some s!"call={i} {r}"
+      | none => go (i + 1) ps ms
+  match go 0 s.poses ms with
+  | some r => s!"fail {r}"
+  | none => "pass"
+
 def handler (fn : String) : Option Handler :=
   match fn with
   | "tuc3" => some {
@@ -670,7 +796,7 @@ def handler (fn : String) : Option Handler :=
         | some (p, m, t, d) => withOut (do let b ← pbool; let m' ← poman3; pure (b, m')) o fun (b, m') => tucOracle3 p m t d b m'
         | none => "skip bad-args" }
   | "tuc3_default" => some {
-      model := fun a => run (do let p ← piso3; let m ← pman3; pure (ftuc3 (tuc3 p m cos1deg distSqThreshold))) a
+      model := fun a => run (do let p ← piso3; let m ← pman3; pure (ftuc3 (tuc3Default p m))) a
       oracle := fun a o => match run (do let p ← piso3; let m ← pman3; pure (p, m)) a with
         | some (p, m) => withOut (do let b ← pbool; let m' ← poman3; pure (b, m')) o fun (b, m') =>
             tucOracle3 p m (0.99984769515 : Float) (1.0e-6 : Float) b m'
@@ -681,7 +807,7 @@ def handler (fn : String) : Option Handler :=
         | some (p, m, t, d) => withOut (do let b ← pbool; let m' ← poman2; pure (b, m')) o fun (b, m') => tucOracle2 p m t d b m'
         | none => "skip bad-args" }
   | "tuc2_default" => some {
-      model := fun a => run (do let p ← piso2; let m ← pman2; pure (ftuc2 (tuc2 p m cos1deg distSqThreshold))) a
+      model := fun a => run (do let p ← piso2; let m ← pman2; pure (ftuc2 (tuc2Default p m))) a
       oracle := fun a o => match run (do let p ← piso2; let m ← pman2; pure (p, m)) a with
         | some (p, m) => withOut (do let b ← pbool; let m' ← poman2; pure (b, m')) o fun (b, m') =>
             tucOracle2 p m (0.99984769515 : Float) (1.0e-6 : Float) b m'
@@ -736,6 +862,16 @@ def handler (fn : String) : Option Handler :=
       model := fun a => run (do let s ← pseq2; pure (seqModel2 s)) a
       oracle := fun a o => match run pseq2 a with
         | some s => withOut (pN poman2 s.poses.length) o (seqOracle2 s)
+        | none => "skip bad-args" }
+  | "seq3t" => some {
+      model := fun _ => some "oracle-only"
+      oracle := fun a o => match run pseqt3 a with
+        | some s => withOut (pmanlist3 s.poses.length) o (seqtOracle3 s)
+        | none => "skip bad-args" }
+  | "seq2t" => some {
+      model := fun _ => some "oracle-only"
+      oracle := fun a o => match run pseqt2 a with
+        | some s => withOut (pN poman2 s.poses.length) o (seqtOracle2 s)
         | none => "skip bad-args" }
   | _ => none
 
